@@ -67,9 +67,9 @@ pub struct NumberDataPoint<'a, A: ?Sized = [KeyValue<&'a str, &'a AnyValue<'a>>]
 
 #[derive(Value)]
 pub enum NumberDataPointValue {
-    #[sval(label = "value", index = 4)]
+    #[sval(label = "asDouble", index = 4)]
     AsDouble(AsDouble),
-    #[sval(label = "value", index = 6)]
+    #[sval(label = "asInt", index = 6)]
     AsInt(AsInt),
 }
 
